@@ -125,7 +125,11 @@ class HashFileDB(ObjectDB):
         oid_cache_paths = {o: self.oid_to_path(o) for o in oids if o not in failed}
         for o, cache_path in oid_cache_paths.items():
             try:
-                if verify:
+                if verify and hardlink:
+                    # NOTE: a hard link comes with the mode of its source, so a
+                    # store that trusts write-protected files must hash it anyway.
+                    HashFileDB.check(self, o, check_hash=True)
+                elif verify:
                     self.check(o, check_hash=True)
                 self.protect(cache_path)
             except FileNotFoundError:
